@@ -264,6 +264,9 @@ func (x *restoreX) operand(e ast.Expr) string {
 	return x.c.ExprStr(e)
 }
 
+// AllocOf recognises &pkg.T{} and returns T.
+func (c *Ctx) AllocOf(e ast.Expr) (string, bool) { return c.allocOf(e) }
+
 func (c *Ctx) allocOf(e ast.Expr) (string, bool) {
 	u, ok := e.(*ast.UnaryExpr)
 	if !ok || u.Op != token.AND {
